@@ -81,7 +81,7 @@ struct SimSock : Poco::Net::StreamSocketImpl
 // in flight are lost
 struct Link
 {
-	bool up = true; uint64_t gen = 1;
+	bool up = true; uint64_t gen = 1; long pending = 0;      // pending = chunks written but not yet delivered
 	SimSock *a = nullptr, *b = nullptr;
 	void join(SimSock *x, SimSock *y) { a = x; b = y; x->peer = y; y->peer = x; x->link = y->link = this; up = true; ++gen; }
 	void drop() { if (!up) return; up = false; ++gen; sim::count("net_link_drop"); if (a) a->eof(); if (b) b->eof(); }
@@ -100,7 +100,8 @@ inline int SimSock::sendBytes(const void *b, int len, int)
 		int64_t when = sim::now_ns() + cfg.lat_ns + (cfg.jitter_ns ? (int64_t)rng.below(cfg.jitter_ns) : 0);
 		if (when < last_deliv) when = last_deliv;       // TCP: no overtaking inside one direction
 		last_deliv = when;
-		sim::at(when, [p, data, l, g] { if (l && (!l->up || l->gen != g)) { sim::count("net_bytes_lost_in_flight", (int64_t)data.size()); return; } for (char c : data) p->rx.push_back(c); sim::wake_all(p); });
+		if (l) ++l->pending;
+		sim::at(when, [p, data, l, g] { if (l) --l->pending; if (l && (!l->up || l->gen != g)) { sim::count("net_bytes_lost_in_flight", (int64_t)data.size()); return; } for (char c : data) p->rx.push_back(c); sim::wake_all(p); });
 	}
 	tx.append((const char *)b, n);
 	tx_marks.emplace_back(sim::now_ns(), tx.size());
